@@ -1,13 +1,14 @@
 #!/bin/bash
-# development aid: run "<prop> <seed>" pairs (stdin, one per line) in parallel over the scratch worktrees /tmp/mx_0 .. /tmp/mx_7
+# development aid: run "<prop> <seed> [tier]" lines (stdin) in parallel over the scratch worktrees /tmp/mx_0 .. /tmp/mx_{W-1} (W = $MX_W, default 8)
 mapfile -t lines
-for k in 0 1 2 3 4 5 6 7; do
+W=${MX_W:-8}
+for k in $(seq 0 $((W-1))); do
   (
     i=$k
     while [ $i -lt ${#lines[@]} ]; do
       set -- ${lines[$i]}
-      VERIF_NPROC=2 /verif/tools/seedrun_wt.sh /tmp/mx_$k /verif/seeded/$2/patch.diff $1 ${3:-quick}
-      i=$((i+8))
+      VERIF_NPROC=${MX_NPROC:-2} /verif/tools/seedrun_wt.sh /tmp/mx_$k /verif/seeded/$2/patch.diff $1 ${3:-quick}
+      i=$((i+W))
     done
   ) &
 done
